@@ -20,9 +20,6 @@ def info():
     return _INFO
 
 
-TDZ_MESSAGE = "Variable used before its declaration"
-
-
 def impl_status(st):
     """Implementation's status string -> the specification's name for it (or the raw string)."""
     inv = {v: k for k, v in info()["runtime"].items()}
@@ -114,8 +111,9 @@ def judge_run(case, maps, resp, compare_events=False):
                 and st not in ("parse_error", "static_error"):
             exp_out = [nsast.spec_value(v) for v in nsast.seq(case["out"])]
             got_out = [nsast.impl_value(v) for v in resp.get("out", [])]
-            if st != TDZ_MESSAGE or got_out != exp_out:
-                return "mismatch", "expected '%s' after %s, got %s %s" % (TDZ_MESSAGE, exp_out, st, got_out)
+            tdz = info()["runtime"]["Uninitialized variable"]           # the crate's own text for that error kind
+            if st != tdz or got_out != exp_out:
+                return "mismatch", "expected '%s' after %s, got %s %s" % (tdz, exp_out, st, got_out)
         return "not-oracle", case["st"]
     if st in ("parse_error", "static_error"):
         msgs = [d["msg"] + ":" + (d["labels"][0]["msg"] if d.get("labels") else "") for d in resp.get("diags", []) if d["sev"] == "error"]
